@@ -9,6 +9,22 @@
 import argparse, concurrent.futures, hashlib, json, os, random, re, shutil
 import subprocess, sys, tempfile, time
 
+import signal as _signal
+
+# Signal dispositions and the signal mask are inherited from whoever runs the check (nohup ignores
+# SIGHUP, a supervisor may block or ignore others); the harnesses observe dispositions (C13), reap
+# children (C12) and deliver signals to threads (C09), so every check starts from the defaults.
+for _s in (_signal.SIGHUP, _signal.SIGUSR1, _signal.SIGUSR2, _signal.SIGWINCH, _signal.SIGCHLD,
+           _signal.SIGALRM, _signal.SIGCONT, _signal.SIGTSTP, _signal.SIGTTIN, _signal.SIGTTOU):
+    try:
+        _signal.signal(_s, _signal.SIG_DFL)
+    except (OSError, ValueError):
+        pass
+try:
+    _signal.pthread_sigmask(_signal.SIG_SETMASK, [])
+except (OSError, ValueError):
+    pass
+
 VERIF = os.path.dirname(os.path.dirname(os.path.abspath(__file__)))
 REPO = os.environ.get("VERIF_REPO", "/repo")   # VERIF_REPO: test a scratch worktree instead
 COQ = os.path.join(VERIF, "coq")
